@@ -53,7 +53,7 @@ def run_scenario(chk, sc, cfgseed, fields, axes):
     ap = lat.ap("A", NAMES, files_of=lambda lv, b: rng.randint(1, 2),
                 shuffle=lambda lv, f, v: rng.sample(v, len(v)))
     flds = lattice.Fields(lat, cfgseed, payload="wild" if cfgseed % 2 else "tame")
-    d = chk.tmp()
+    d = chk.tmp_reuse()
     os.makedirs(d)
     src = os.path.join(d, "plt2d")
     gamma.write_plotfile(src, ap, cfg_, values=flds.values)
